@@ -73,6 +73,10 @@ class VArr(_Generic):
     def in_bounds(self):
         return z3.And(*[z3.And(V(a) >= 0, V(a) < _size_t(s)) for a, s in enumerate(self.shape_)])
 
+    @property
+    def real(self):
+        return self
+
     def _new(self, elem, shape=None, dtype=None):
         return VArr(shape if shape is not None else self.shape_, elem, dtype or self.dtype_)
 
@@ -240,7 +244,7 @@ class VArr(_Generic):
             elif kind == "map":
                 sub[old] = arg.fn(V(new))
             else:
-                sub[old] = V(new) + to_z3(arg)
+                sub[old] = V(new) + to_z3(arg) if not (isinstance(arg, int) and arg == 0) else V(new)
         e = subst_index(self.elem, sub)
         if not shape:
             return e
@@ -260,6 +264,11 @@ class VArr(_Generic):
             self.elem = _ite(m, vv, self.elem)
             return
         key = self._parse_key(key)
+        cx = ctx()
+        lvars = getattr(cx, "loop_vars", {})
+        loop_keys = [(a, k) for a, k in enumerate(key) if isinstance(k, SV) and z3.is_const(k.t) and k.t.decl().name() in lvars]
+        if loop_keys:
+            return self._comprehension_store(key, loop_keys, v, lvars)
         conds, sub_v, ax, vax = [], {}, 0, 0
         vshape = []
         for k in key:
@@ -302,6 +311,93 @@ class VArr(_Generic):
             val = v
         c = z3.And(*conds) if conds else z3.BoolVal(True)
         self.elem = _ite(SB(c), val, self.elem)
+
+    def _comprehension_store(self, key, loop_keys, v, lvars):
+        """arr[..loop variables..] = value inside generic loops over complete index ranges: every iteration writes its own cell,
+        so after the loops cell (V..) holds the value computed by ITS iteration: substitute loop variable -> index variable.
+        Conditions: the loop variables are distinct, the remaining keys are full slices, the stores are not under a data-dependent
+        branch other than what is kept as an if-then-else, and the value reads this array only at the iteration's own cell."""
+        cx = ctx()
+        names = [k.t.decl().name() for _, k in loop_keys]
+        if len(set(names)) != len(names):
+            raise Unsupported("same loop variable on two axes")
+        others = [k for a, k in enumerate(key) if not any(a == la for la, _ in loop_keys)]
+        if not all(isinstance(k, slice) and k == slice(None) for k in others):
+            raise Unsupported("loop-indexed store mixed with partial slices")
+        sub = [(k.t, V(a)) for a, k in loop_keys]
+        rng = []
+        for a, k in loop_keys:
+            lo, hi = lvars[k.t.decl().name()][:2]
+            rng.append(z3.And(V(a) >= to_z3(lo), V(a) < to_z3(hi)))
+        n0 = min(lvars[k.t.decl().name()][2] for _, k in loop_keys)
+        # generalise the iteration: facts created inside the loops (sqrt/abs/... axioms) and the fresh symbols they define are
+        # re-instantiated for the generic index (loop variable -> index variable, fresh symbol -> its generic twin)
+        h0 = min(lvars[k.t.decl().name()][3] for _, k in loop_keys)
+        c0 = min(lvars[k.t.decl().name()][4] for _, k in loop_keys)
+        body_hyps = list(cx.hyps[h0:])
+        import re as _re
+        loop_names = set(lvars)
+        fresh = {}
+        def scan(e, seen):
+            if e.get_id() in seen:
+                return
+            seen.add(e.get_id())
+            if z3.is_const(e) and e.decl().kind() == z3.Z3_OP_UNINTERPRETED:
+                nm = e.decl().name()
+                m = _re.search(r"!(\d+)$", nm)
+                if m and int(m.group(1)) >= c0 and nm not in loop_names and not nm.endswith("@g"):
+                    fresh[nm] = e
+            for ch in e.children():
+                scan(ch, seen)
+        seen = set()
+        for hh in body_hyps:
+            scan(hh, seen)
+        if fresh and not all(k.t.decl().name() in loop_names for _, k in loop_keys):
+            raise Unsupported("generalisation of loop-local symbols")
+        # a fresh symbol defined inside the body depends on the iteration: it becomes a function of the index variables, and
+        # its defining facts hold for every index (universally quantified, instantiated by the solver's e-matching wherever
+        # the function is applied -- also after later index substitutions such as fftshift)
+        idx_vars = [V(a) for a, _ in loop_keys]
+        for nm, e in fresh.items():
+            F = z3.Function(nm + "@g", *([z3.IntSort()] * len(idx_vars) + [e.sort()]))
+            sub.append((e, F(*idx_vars)))
+        for hh in body_hyps:
+            g = z3.substitute(hh, *sub)
+            if not g.eq(hh):
+                dom = z3.And(*rng)
+                cx.hyps.append(z3.ForAll(idx_vars, z3.Implies(dom, g)) if fresh else g)
+        cx._solver = None
+        branch = [e[0] for e in cx.pc[n0:] if not (len(e) > 2 and e[2] == "domain")]
+        cond = z3.substitute(z3.And(*(rng + branch)), *sub) if (rng + branch) else z3.BoolVal(True)
+        free_axes = [a for a, k in enumerate(key) if isinstance(k, slice)]
+        if isinstance(v, FilteredMap):
+            # a filtered image stored back into its own slice: record the per-image gain
+            own = subst_index(self.elem, {a: k.t for a, k in loop_keys})
+            own = subst_index(own, {fa: V(j) for j, fa in enumerate(free_axes)}) if free_axes != list(range(len(free_axes))) else own
+            if not (z3.simplify(v.source.elem.t).eq(z3.simplify(own.t)) if isinstance(own, SV) else False):
+                raise Unsupported("filtered image stored into a slice it was not computed from")
+            if not v.real:
+                raise Unsupported("complex filtered image stored into a real stack")
+            gains = []
+            for g in v.gains:
+                ge = g.elem
+                # gain lives on the free axes (0..k-1) of the image; move them to their positions in the stack, loop vars -> index vars
+                ge = subst_index(ge, {j: V(fa) for j, fa in enumerate(free_axes)}) if free_axes != list(range(len(free_axes))) else ge
+                ge = SV(z3.substitute(ge.t, *sub))
+                gains.append(VArr(self.shape_, ge))
+            self.filtered = {"gains": gains, "cond": cond, "source_elem": self.elem}
+            f = z3.Function(f"filtered!{next(_ids)}", *([z3.IntSort()] * self.ndim + [z3.RealSort()]))
+            self.elem = SV(f(*[V(a) for a in range(self.ndim)]))
+            return
+        if isinstance(v, VArr):
+            if v.ndim != len(free_axes):
+                raise Unsupported("loop-indexed store of an array of different rank")
+            val = subst_index(v.elem, {j: V(fa) for j, fa in enumerate(free_axes)}) if free_axes != list(range(len(free_axes))) else v.elem
+        else:
+            val = v
+        if isinstance(val, (SV, SB)):
+            val = type(val)(z3.substitute(val.t, *sub))
+        self.elem = _ite(SB(cond), val, self.elem)
 
     def reshape(self, *shape):
         shape = shape[0] if len(shape) == 1 and isinstance(shape[0], (tuple, list)) else shape
@@ -401,14 +497,18 @@ class IndexMap(_Generic):
 
 
 class Spectrum(_Generic):
-    """fftn(x) of a voxel array, possibly multiplied by real gain arrays: DFT(x) * gain (element-wise in Fourier space)"""
+    """fftn/fft2 of a voxel array, multiplied by real gain arrays: DFT(x) * gain, element-wise in Fourier space.
+    `shifted` says whether the spectrum is currently in fftshift-ed (centred) layout; gains multiplied in that layout are
+    converted to natural layout when the spectrum is ifftshift-ed back."""
 
-    def __init__(self, source, gains=()):
-        self.source, self.gains = source, list(gains)
+    def __init__(self, source, gains=(), shifted=0, pending=()):
+        self.source, self.gains, self.shifted, self.pending = source, list(gains), shifted, list(pending)
 
     def __mul__(self, o):
         if isinstance(o, VArr):
-            return Spectrum(self.source, self.gains + [o])
+            if self.shifted == 0:
+                return Spectrum(self.source, self.gains + [o], 0, self.pending)
+            return Spectrum(self.source, self.gains, self.shifted, self.pending + [(o, self.shifted)])
         raise Unsupported("spectrum multiplied by a non-array")
 
     __rmul__ = __mul__
@@ -422,11 +522,17 @@ class FilteredMap(_Generic):
     """ifftn(DFT(x) * G) (and its real part): the map x filtered with the Fourier-space gain G"""
 
     def __init__(self, source, gains, real=False):
-        self.source, self.gains, self.real = source, gains, real
+        self.source, self.gains, self._real = source, gains, real
 
     @property
     def shape(self):
         return self.source.shape
+
+    @property
+    def real(self):
+        if self._real:
+            return True
+        return FilteredMap(self.source, self.gains, True)
 
 
 class FFT:
@@ -437,18 +543,45 @@ class FFT:
     def fftn(x, *a, **k):
         if isinstance(x, VArr):
             return Spectrum(x)
-        raise Unsupported("fftn of a non-voxel array")
+        import numpy as np
+        return np.fft.fftn(x, *a, **k)
+
+    fft2 = fftn
 
     @staticmethod
     def ifftn(s, *a, **k):
         if isinstance(s, Spectrum):
+            if s.shifted != 0 or s.pending:
+                raise Unsupported("inverse transform of a spectrum that is still in shifted layout")
             return FilteredMap(s.source, s.gains)
-        raise Unsupported("ifftn of something that is not a (filtered) spectrum")
+        import numpy as np
+        return np.fft.ifftn(s, *a, **k)
+
+    ifft2 = ifftn
+
+    @staticmethod
+    def fftfreq(*a, **k):
+        import numpy as np
+        return np.fft.fftfreq(*a, **k)
 
     @staticmethod
     def _shift(x, sign):
+        if isinstance(x, Spectrum):
+            # layout bookkeeping: fftshift = +1, ifftshift = -1 (mutually inverse for every n).  Gains multiplied in a shifted layout
+            # are mapped back:  natural_gain[j] = shifted_gain[index the layout shift sends j to]
+            st = x.shifted - sign  # sign=+1 is ifftshift, sign=-1 is fftshift in this helper's convention
+            if st == 0:
+                gains = list(x.gains)
+                for g, lay in x.pending:
+                    if lay not in (1, -1):
+                        raise Unsupported("gain applied in a doubly shifted layout")
+                    # layout +1 (after fftshift): S[i] = F[(i - h) mod n]; natural index j sits at i = (j + h) mod n  -> ifftshift map
+                    gains.append(FFT._shift(g, +1 if lay == 1 else -1))
+                return Spectrum(x.source, gains, 0, [])
+            return Spectrum(x.source, x.gains, st, x.pending)
         if not isinstance(x, VArr):
-            raise Unsupported("fft shift of a non-voxel array")
+            import numpy as np
+            return np.fft.ifftshift(x) if sign > 0 else np.fft.fftshift(x)
         sub = {}
         for a, n in enumerate(x.shape_):
             nt = _size_t(n)
